@@ -1248,6 +1248,13 @@ func toString(v interface{}) string {
 		return val.String()
 	}
 
+	// A pointer to a number, string, slice or map prints what it points to;
+	// formatting the pointer itself would print a memory address
+	if rv := reflect.ValueOf(v); rv.Kind() == reflect.Ptr && !rv.IsNil() &&
+		rv.Elem().Kind() != reflect.Struct && rv.Elem().Kind() != reflect.Ptr && rv.Elem().CanInterface() {
+		return toString(rv.Elem().Interface())
+	}
+
 	return fmt.Sprintf("%v", v)
 }
 
